@@ -61,6 +61,7 @@ def idlCaseText (line : String) : Option Str :=
   | some (.list [.atom "idl", t]) => (asStr t).map String.toList
   | some (.list [.atom "idl-deep", _, t]) => (asStr t).map String.toList
   | some (.list [.atom "idl-lim", t]) => (asStr t).map String.toList
+  | some (.list [.atom "idl-rep", _, t]) => (asStr t).map String.toList
   | _ => none
 
 def idlLine (line : String) : String :=
